@@ -123,6 +123,60 @@ pub fn c18_transcript<const N: usize>(o: &Opts, recipes_in: Option<Vec<Recipe>>,
             }
         }
     }
+    // ---- the other element types (the property says "every operation"): byte buffers through the I/O traits,
+    // zero-sized elements in every layout of this capacity (incl. clone/destructor faults), and — once, in the
+    // N = 0 job — zero-sized elements at the extreme capacities.  These histories are fixed lists, so all builds
+    // run the same ones without exchanging recipes.
+    if N <= 6 {
+        let cases = crate::io::c18_io_cases(N);
+        for (i, (recipe, acts)) in cases.iter().enumerate() {
+            if !o.mine(i) {
+                continue;
+            }
+            for act in acts {
+                let line = crate::io::c18_io_line::<N>(recipe, act);
+                let _ = writeln!(out, "io\t{}\t{}\tnone\t{}", crate::io::c18_recipe_str(recipe), act.show(), line);
+                lines += 1;
+            }
+        }
+        let mut i = 0usize;
+        for rot in 0..N.max(1) {
+            for len in 0..=N {
+                i += 1;
+                if !o.mine(i) {
+                    continue;
+                }
+                for (op, cf, df) in crate::zst::all_ops(N, len) {
+                    let mut one = |fault: Option<(u8, u32)>, lines: &mut u64| -> (u32, u32) {
+                        let shown = match fault {
+                            None => "none".to_string(),
+                            Some((0, k)) => format!("clone#{}", k),
+                            Some((_, k)) => format!("drop#{}", k),
+                        };
+                        crate::set_case(&format!("n={}|ctor=zst|recipe={},{}|filling=none|act={}|fault={}|extra=c18", N, rot, len, op.show(), shown));
+                        let (probs, clones, drops) = crate::zst::zst_case::<N>(rot, len, op, fault);
+                        let _ = writeln!(out, "zst\t{},{}\t{}\t{}\tclone-calls {} destructor-calls {} problems {:?}", rot, len, op.show(), shown, clones, drops, probs);
+                        *lines += 1;
+                        (clones, drops)
+                    };
+                    let (clones, drops) = one(None, &mut lines);
+                    if cf {
+                        for k in 1..=clones {
+                            one(Some((0, k)), &mut lines);
+                        }
+                    }
+                    if df {
+                        for k in 1..=drops {
+                            one(Some((1, k)), &mut lines);
+                        }
+                    }
+                }
+            }
+        }
+    }
+    if N == 0 && o.shard.0 == 0 {
+        lines += crate::c19::c18_lines(if o.thorough() { 3 } else { 2 }, out);
+    }
     let _ = FAULT_KINDS;
     (recipes.len() as u64, lines)
 }
